@@ -3179,8 +3179,11 @@ namespace awkward {
               I exitdepth = bytecode_get();
               bytecodes_pointer_where()++;
               recursion_current_depth_ -= exitdepth;
+              // Drop only the 'do' loops that were started inside the word being
+              // left (its own segment is at recursion_current_depth_ now and is
+              // popped below); loops of the caller, at shallower depth, stay active.
               while (do_current_depth_ != 0  &&
-                     do_abs_recursion_depth() != recursion_current_depth_) {
+                     do_abs_recursion_depth() >= recursion_current_depth_) {
                 do_current_depth_--;
               }
 
